@@ -67,6 +67,9 @@ def mk_cases(seed: int, n: int, tier: str) -> list:
         if tier == "thorough" and i % 23 == 1:
             cli = ("--solver-threads", "1", "--solver", "z3")
         cases.append(uc.UcCase(seed=seed, index=i, ntests=3, depth=depth, hard=hard, cli=cli, inject=INJECT[i % len(INJECT)]))
+    if tier == "quick":
+        # one case whose atoms need refinement (symbolic products): the refined queries go through the named encoding too
+        cases.append(uc.UcCase(seed=seed, index=n, ntests=2, depth=(2, 3), hard=0.6, cli=("--solver-threads", "1"), inject="none"))
     return cases
 
 
